@@ -152,44 +152,90 @@ Definition is_del (f : fname) : option bool :=
 Lemma set_allobj_twice : forall s m m', set_allobj (set_allobj s m) m' = set_allobj s m'.
 Proof. reflexivity. Qed.
 
-(* the four walks, for every fuel *)
-Lemma walker_ir_eq : forall F f o s,
-    walker_ir registry_code F f [VObj o] s =
-    match is_del f with
-    | Some true => option_map (set_allobj s) (rm_f F s (allobj s) o)
-    | Some false => option_map (set_allobj s) (add_f F s (allobj s) o)
-    | None => None
-    end.
+(* one step of a walk, on a state *)
+Definition del_step (s0 : state) (c : id) : option state :=
+  match fullpath s0 c with
+  | Some k => match adel_strict path_eqb k (allobj s0) with Some m => Some (set_allobj s0 m) | None => None end
+  | None => None
+  end.
+Definition set_step (s0 : state) (c : id) : option state :=
+  match fullpath s0 c with
+  | Some k => Some (set_allobj s0 (rset k c (allobj s0)))
+  | None => None
+  end.
+Lemma fold_st_del : forall s T m, fold_st del_step T (set_allobj s m) = option_map (set_allobj s) (del_walk s T m).
 Proof.
-  induction F as [|F IH]; intros f o s; [destruct f; reflexivity|].
-  assert (Hcall : forall f' (x : var) e0 s0 c,
-             option_map snd (exec (walker_ir registry_code F) (SCall f' [EVar x]) (eset e0 x (VObj c)) s0) =
-             walker_ir registry_code F f' [VObj c] s0).
-  { intros f' x e0 s0 c. cbn [exec evals eval]. unfold eset. rewrite N.eqb_refl.
-    destruct (walker_ir registry_code F f' [VObj c] s0); reflexivity. }
-  assert (Hdel : forall f', is_del f' = Some true -> forall l m,
-             fold_st (fun s0 c => walker_ir registry_code F f' [VObj c] s0) l (set_allobj s m) =
-             option_map (set_allobj s) (fold_opt (rm_f F s) l m)).
-  { intros f' Hf'. apply fold_st_registry. intros m c. rewrite IH, Hf'. cbn [allobj set_allobj].
-    rewrite rm_f_set_allobj. destruct (rm_f F s m c); reflexivity. }
-  assert (Hadd : forall f', is_del f' = Some false -> forall l m,
-             fold_st (fun s0 c => walker_ir registry_code F f' [VObj c] s0) l (set_allobj s m) =
-             option_map (set_allobj s) (fold_opt (add_f F s) l m)).
-  { intros f' Hf'. apply fold_st_registry. intros m c. rewrite IH, Hf'. cbn [allobj set_allobj].
-    rewrite add_f_set_allobj. destruct (add_f F s m c); reflexivity. }
-  destruct f; cbn [is_del walker_ir]; ir_step; try reflexivity;
-    cbn [rm_f add_f]; destruct (fullpath s o) as [k|]; try reflexivity; ir_step;
-    try (destruct (adel_strict path_eqb k (allobj s)) as [m1|]; [|reflexivity]; ir_step);
-    rewrite result_state;
-    match goal with
-    | |- context [for_loop ?body ?x _ _ _] =>
-      match body with context [walker_ir registry_code F ?f'] =>
+  intros s. induction T as [|c T IH]; intros m; cbn [fold_st del_walk]; [reflexivity|]. unfold del_step at 1.
+  change (fullpath (set_allobj s m) c) with (fullpath s c). cbn [allobj set_allobj].
+  destruct (fullpath s c) as [k|]; [|reflexivity]. destruct (adel_strict path_eqb k m) as [m1|]; [apply IH | reflexivity].
+Qed.
+Lemma fold_st_set : forall s T m, fold_st set_step T (set_allobj s m) = option_map (set_allobj s) (set_walk s T m).
+Proof.
+  intros s. induction T as [|c T IH]; intros m; cbn [fold_st set_walk]; [reflexivity|]. unfold set_step at 1.
+  change (fullpath (set_allobj s m) c) with (fullpath s c). cbn [allobj set_allobj].
+  destruct (fullpath s c) as [k|]; [apply IH | reflexivity].
+Qed.
+Lemma set_allobj_self : forall s, set_allobj s (allobj s) = s.
+Proof. intros [st n a r d u]. reflexivity. Qed.
+
+(* is the walk written as a loop over _iter_subtree (flat) or as a recursion over contents.values()? *)
+Definition flat (d : fundef) : bool := match f_body d with SForSubtree _ _ _ => true | _ => false end.
+
+(* the four walks, for every fuel: a recursive one is the interleaved walk with that fuel, a flat one is the walk
+   over Registry.subtree (whatever fuel is left, as long as the call itself is possible) *)
+Definition walk_spec (F : nat) (f : fname) (o : id) (s : state) : option state :=
+  match is_del f, walker registry_code f with
+  | Some del, Some d =>
+    if flat d
+    then match F with
+         | O => None
+         | S _ => option_map (set_allobj s) (if del then remove_tree s o else readd_tree s o)
+         end
+    else option_map (set_allobj s) (if del then rm_f F s (allobj s) o else add_f F s (allobj s) o)
+  | _, _ => None
+  end.
+
+(* a recursive body: <step on self>; for c in contents.values(): <walk>(c) *)
+Ltac walk_rec F IH s o :=
+  cbn [rm_f add_f]; destruct (fullpath s o) as [k|]; try reflexivity; ir_step;
+  try (destruct (adel_strict path_eqb k (allobj s)) as [m1|]; [|reflexivity]; ir_step);
+  rewrite result_state;
+  match goal with
+  | |- context [for_loop ?body ?x _ _ _] =>
+    match body with context [walker_ir registry_code F ?f'] =>
       rewrite (for_loop_state _ x (fun s0 c => walker_ir registry_code F f' [VObj c] s0));
-        [first [apply (Hdel f' eq_refl) | apply (Hadd f' eq_refl)]
-        | intros e0 s0 c; unfold eset; rewrite N.eqb_refl;
-          destruct (walker_ir registry_code F f' [VObj c] s0); reflexivity]
-      end
-    end.
+      [ apply fold_st_registry; intros m c; rewrite IH; unfold walk_spec; cbn [is_del walker registry_code flat f_body
+                 c_remove c_readd c_pre c_post code_remove code_readd code_pre code_post allobj set_allobj];
+        rewrite ?rm_f_set_allobj, ?add_f_set_allobj;
+        first [destruct (rm_f F s m c); reflexivity | destruct (add_f F s m c); reflexivity]
+      | intros e0 s0 c; unfold eset; rewrite N.eqb_refl;
+        destruct (walker_ir registry_code F f' [VObj c] s0); reflexivity ]
+    end
+  end.
+(* a flat body: for x in _iter_subtree(self): <step on x> *)
+Ltac walk_flat s o :=
+  unfold remove_tree, readd_tree; destruct (subtree s o) as [T|]; [|reflexivity];
+  rewrite result_state;
+  match goal with
+  | |- context [for_loop ?body ?x _ _ _] =>
+    first [ rewrite (for_loop_state body x del_step);
+            [ rewrite <- (set_allobj_self s) at 1; apply fold_st_del
+            | intros e0 s0 c; unfold del_step; ir_step; unfold eset; rewrite ?N.eqb_refl;
+              destruct (fullpath s0 c); [destruct (adel_strict path_eqb _ (allobj s0))|]; reflexivity ]
+          | rewrite (for_loop_state body x set_step);
+            [ rewrite <- (set_allobj_self s) at 1; apply fold_st_set
+            | intros e0 s0 c; unfold set_step; ir_step; unfold eset; rewrite ?N.eqb_refl;
+              destruct (fullpath s0 c); reflexivity ] ]
+  end.
+
+Lemma walker_ir_eq : forall F f o s, walker_ir registry_code F f [VObj o] s = walk_spec F f o s.
+Proof.
+  induction F as [|F IH]; intros f o s.
+  - unfold walk_spec. destruct f; cbn; try reflexivity;
+      match goal with |- context [if ?b then _ else _] => destruct b end; reflexivity.
+  - destruct f; unfold walk_spec; cbn [is_del walker_ir walker registry_code c_remove c_readd c_pre c_post]; try reflexivity;
+      ir_step; cbn [flat f_body code_remove code_readd code_pre code_post]; ir_step;
+      first [ walk_rec F IH s o | walk_flat s o ].
 Qed.
 
 (* the walks started by a call: the fuel Registry.subtree has *)
@@ -200,7 +246,11 @@ Lemma call_walker_eq : forall f o s,
     | Some false => option_map (set_allobj s) (readd_tree s o)
     | None => None
     end.
-Proof. intros f o s. rewrite walker_ir_eq. rewrite rm_f_remove_tree, add_f_readd_tree. reflexivity. Qed.
+Proof.
+  intros f o s. rewrite walker_ir_eq. unfold walk_spec.
+  destruct f; cbn [is_del walker registry_code c_remove c_readd c_pre c_post flat f_body code_remove code_readd code_pre code_post];
+    rewrite ?rm_f_remove_tree, ?add_f_readd_tree; reflexivity.
+Qed.
 
 (* ------------------------------------------------------------------ equality of states up to the (pointwise) store *)
 Definition steq (a b : state) : Prop :=
@@ -252,6 +302,23 @@ Proof.
   - exists e. auto.
 Qed.
 
+(* a `for` whose body leaves the environment alone *)
+Lemma for_loop_full : forall (body : step_t) x (g : state -> id -> option state),
+    (forall e0 s0 c, body (eset e0 x (VObj c)) s0 = option_map (pair (eset e0 x (VObj c))) (g s0 c)) ->
+    forall os e s, for_loop body x os e s =
+                   option_map (pair (fold_left (fun e1 c => eset e1 x (VObj c)) os e)) (fold_st g os s).
+Proof.
+  intros body x g Hb. induction os as [|c os IH]; intros e s; [reflexivity|]. cbn [for_loop fold_st fold_left].
+  rewrite Hb. destruct (g s c) as [s1|]; cbn [option_map]; [apply IH | reflexivity].
+Qed.
+Lemma fold_eset_other : forall x os e y, y <> x -> fold_left (fun e1 c => eset e1 x (VObj c)) os e y = e y.
+Proof.
+  intros x. induction os as [|c os IH]; intros e y Hy; cbn [fold_left]; [reflexivity|].
+  rewrite IH by exact Hy. unfold eset. destruct (N.eqb x y) eqn:E; [apply N.eqb_eq in E; congruence | reflexivity].
+Qed.
+Lemma fold_st_set' : forall s T, fold_st set_step T s = option_map (set_allobj s) (set_walk s T (allobj s)).
+Proof. intros s T. rewrite <- (set_allobj_self s) at 1. apply fold_st_set. Qed.
+
 Arguments fullpath : simpl never.
 Arguments remove_tree : simpl never.
 Arguments readd_tree : simpl never.
@@ -284,17 +351,34 @@ Proof.
   destruct (rget fn (allobj s)) as [prev|]; [|exact I].
   ir_step. cbn [call1]. ir_step. rewrite call_walker_eq. cbn [is_del].
   destruct (remove_tree s prev) as [m1|]; [|exact I]. cbn [option_map]. ir_step. look e' Hj He'. ir_step.
-  cbn [call1]. ir_step. rewrite call_walker_eq. cbn [is_del].
   match goal with |- oeq ?L ?R => match R with context [readd_tree ?S2 prev] => set (s2 := S2) end end.
-  match goal with |- oeq ?L _ => match L with context [readd_tree ?SN prev] =>
-    rewrite (readd_tree_ext s2 SN prev);
-      [ | intros x; unfold s2; cbn [store st_name set_store set_allobj]; unfold upd; destruct (N.eqb x prev); cbn; auto
-        | reflexivity | reflexivity ] end end.
-  destruct (readd_tree s2 prev) as [m2|]; [|exact I]. cbn [option_map]. ir_step. look e' Hj He'. ir_step.
-  cbn [oeq]. unfold steq, mark_sup, s2. cbn [store next allobj roots depthb unproc st_name set_store set_allobj].
-  split; [|repeat split; reflexivity].
-  intros x. unfold upd. destruct (N.eqb x prev) eqn:E; [|reflexivity].
-  apply N.eqb_eq in E. subst x. rewrite ?N.eqb_refl. reflexivity.
+  (* the state in which the renamed subtree is registered again differs from the model's only in the ghost flag *)
+  assert (Hext : forall SN, (forall x, store SN x = upd (store s) prev (with_name (store s prev) (dup_name (oname (store s ob)) j)) x) ->
+                            depthb SN = depthb s -> allobj SN = m1 -> readd_tree SN prev = readd_tree s2 prev).
+  { intros SN H1 H2 H3. apply readd_tree_ext; [|exact H2 | exact H3].
+    intros x. rewrite H1. unfold s2. cbn [store]. unfold upd. destruct (N.eqb x prev); cbn; auto. }
+  first
+  [ (* readd(prev) / prev._handle_reparenting_post(): a call *)
+    cbn [call1]; ir_step; rewrite call_walker_eq; cbn [is_del];
+    match goal with |- oeq ?L _ => match L with context [readd_tree ?SN prev] =>
+      rewrite (Hext SN) by (intros; reflexivity) end end;
+    destruct (readd_tree s2 prev) as [m2|]; [|exact I]; cbn [option_map]; ir_step; look e' Hj He'; ir_step
+  | (* for ob in _iter_subtree(prev): allobjects[ob.fullName()] = ob : inline *)
+    match goal with |- oeq ?L _ => match L with context [subtree ?SN prev] =>
+      rewrite <- (Hext SN) by (intros; reflexivity); unfold readd_tree;
+      destruct (subtree SN prev) as [T|]; [|exact I];
+      match goal with |- context [for_loop ?body ?x T _ _] =>
+        rewrite (for_loop_full body x set_step)
+          by (intros e0 s0 c; unfold set_step; unfold eset; rewrite ?N.eqb_refl; destruct (fullpath s0 c); reflexivity)
+      end;
+      rewrite fold_st_set';
+      destruct (set_walk SN T (allobj SN)) as [m2|]; [|exact I]; cbn [option_map]; ir_step;
+      rewrite ?fold_eset_other by discriminate; cbn [eset N.eqb Pos.eqb]; look e' Hj He'; ir_step
+    end end ].
+  all: cbn [oeq]; unfold steq, mark_sup, s2; cbn [store next allobj roots depthb unproc st_name set_store set_allobj];
+    (split; [|repeat split; reflexivity]);
+    intros x; unfold upd; destruct (N.eqb x prev) eqn:E; [|reflexivity];
+    apply N.eqb_eq in E; subst x; rewrite ?N.eqb_refl; reflexivity.
 Qed.
 
 Lemma aset_absent {K V} (eqb : K -> K -> bool) : forall k (v : V) l, aget eqb k l = None -> aset eqb k v l = l ++ [(k, v)].
@@ -310,7 +394,7 @@ Ltac ao_tail ob :=
     let fn := fresh "fn" in let Efn := fresh "Efn" in
     destruct (fullpath s1 ob) as [fn|] eqn:Efn; [|exact I]; ir_step;
     let first := fresh "first" in let Er := fresh "Er" in
-    destruct (rget fn (allobj s1)) as [first|] eqn:Er; ir_step;
+    destruct (rget fn (allobj s1)) as [first|] eqn:Er; ir_step; unfold key_in; rewrite ?Er; ir_step;
     [ try rewrite (N.eqb_sym ob first);
       destruct (N.eqb first ob); cbn [negb option_map]; ir_step;
       [ apply steq_refl
